@@ -23,5 +23,14 @@ package xmldsig
 //@   ensures @first_certificate_matches_the_signing_key ret1 == nil ==> matched && len(certs) >= 1
 //@
 //@ func finishSignature
-//@   property C07
+//@   property C07 C19
 //@   before call invoke crypto.Signer.Sign(k, _, _, _): assert @signature_made_with_the_given_key k == privKey
+//@   ghost pubv crypto.PublicKey = nil
+//@   ghost curveBits int = -1
+//@   ghost packs int = 0
+//@   on call invoke crypto.Signer.Public(_) ret (p): pubv = ite(pubv == nil, p, pubv)
+//@   on call invoke crypto/elliptic.Curve.Params(_) ret (p): curveBits = p.BitSize
+//@   before call (x509tools.EcdsaSignature).PackFixed(_, n): assert @each_number_as_wide_as_the_curve n == (curveBits + 7) / 8 && curveBits >= 0
+//@   on call (x509tools.EcdsaSignature).PackFixed(_, _) ret (b, e): packs = packs + 1
+//@   before call (*encoding/base64.Encoding).EncodeToString(_, b): assert @ecdsa_signature_value_is_two_fixed_width_numbers \
+//@        istype(pubv, *ecdsa.PublicKey) ==> packs == 1 && len(b) == 2 * ((curveBits + 7) / 8)
